@@ -74,12 +74,26 @@ def records_for(t, units, rng, ops):
         for op in ops:
             if op in ("floor", "ceil", "round"):
                 out.append(call(u, op, t))
+                if op == "round" and rng.random() < 0.3:
+                    # exactly half way between two boundaries (the later one wins), and 1 ms either side
+                    b = boundary(u, t)
+                    nxt = {"second": b + dt.timedelta(seconds=1), "minute": b + dt.timedelta(minutes=1), "hour": b + dt.timedelta(hours=1),
+                           "day": b + dt.timedelta(days=1), "week": b + dt.timedelta(days=7),
+                           "month": dt.datetime(b.year + (b.month == 12), b.month % 12 + 1, 1), "year": dt.datetime(b.year + 1, 1, 1)}[u]
+                    mid = b + (nxt - b) / 2
+                    mid = mid.replace(microsecond=(mid.microsecond // 1000) * 1000)
+                    for tt in (mid, mid - dt.timedelta(milliseconds=1), mid + dt.timedelta(milliseconds=1)):
+                        out.append(call(u, "round", tt))
             elif op == "offset":
                 out.append(call(u, op, boundary(u, t), k=rng.choice([0, 1, 1, 2, 3, 7, 12, 28, 31, 59, 100, 365, 400])))
             elif op == "range":
                 span = RANGE_SPAN[u] * rng.choice([0.02, 0.3, 1])
-                step = 1 if u == "week" else rng.choice([1, 1, 2, 3, 5, 6, 12])
-                out.append(call(u, op, t, t1=t + span, step=step))
+                step = 1 if u == "week" else rng.choice([1, 1, 2, 3, 5, 6, 10, 12])
+                t1 = t + span
+                if rng.random() < 0.3:
+                    t1 = boundary(u, t1)              # the stop is itself a boundary: [start, stop) excludes it
+                t0 = boundary(u, t) if rng.random() < 0.2 else t
+                out.append(call(u, op, t0, t1=t1, step=step))
                 if u == "week":
                     # stepped week ranges (spacing clause only); started shortly before a year's first Sunday half of the time
                     t0 = t if rng.random() < 0.5 else dt.datetime(t.year, 1, 1) - dt.timedelta(days=rng.randint(0, 20))
